@@ -108,6 +108,19 @@ structure Coeffs (α : Type) where
   cxy : α
   cyy : α
 
+/-- vectors obtained from `cell_sizes = np.diff(cell_centres, axis=0)` -/
+inductive VExpr
+  | diffCol (axis : Nat)     -- `cell_sizes[:, axis]`
+  | nonzero (v : VExpr)      -- `v[v != 0]`
+  | abs (v : VExpr)          -- `abs(v)`
+  deriving Repr
+
+/-- the scalar taken as voxel width / height -/
+inductive SExpr
+  | min (v : VExpr)          -- `np.min(v)`  (`ValueError` on an empty selection)
+  | max (v : VExpr)          -- `np.max(v)`
+  deriving Repr
+
 inductive Slot | dpsidyy | dpsidxdy | other
   deriving DecidableEq, Repr
 
